@@ -37,7 +37,8 @@ bool BoundaryItemIter<FaceIter, FaceHandle>::has_incidences() const {
 
 template <>
 bool BoundaryItemIter<CellIter, CellHandle>::has_incidences() const {
-    return true;
+    // is_boundary(CellHandle) asks is_boundary(FaceHandle) for each of the cell's faces
+    return BaseIter::mesh()->has_face_bottom_up_incidences();
 }
 
 template class OVM_EXPORT BoundaryItemIter<VertexIter, VertexHandle>;
